@@ -39,7 +39,7 @@ def run(ctx):
             for k, v in kinds.items():
                 ctx.extra.setdefault('step_kinds', {})[k] = ctx.extra.get('step_kinds', {}).get(k, 0) + v
             ctx.sample({'kind': 'builder case', 'case': next(e for e in evs if e.get('ev') == 'op' and len(e['steps']) > 2)})
-    return ctx.finish(rule='Steps.tla gives every step kind its TiKV-side precondition and effect and states the C08 clauses over every intermediate '
+    return ctx.finish(level='exploration', rule='Steps.tla gives every step kind its TiKV-side precondition and effect and states the C08 clauses over every intermediate '
                            'state; seeded requests (3-6 stores incl. down/offline/reject-leader stores, origin with learners, pending peers and a '
                            'leader, arbitrary target peers and roles, optional target leader, joint consensus on/off, light-weight and forced-leader '
                            'variants) are given to the real operator.Builder; every produced step list is executed by TLC on the model and, in the '
